@@ -598,6 +598,8 @@ def prune_helpers(trees):
         for owner, h in getattr(t, "_helpers", []):
             inner = sum(1 for n in ast.walk(h) if (isinstance(n, ast.Name) and n.id == h.name) or
                         (isinstance(n, ast.Attribute) and n.attr == h.name))
+            if h.name.startswith("__") and h.name.endswith("__"):
+                continue        # special methods are called by the interpreter, not by name
             if refs.get(h.name, 0) - inner == 0 and h in owner.body and (h.name.startswith("_") or not isinstance(owner, (
                     ast.Module, ast.ClassDef))):
                 owner.body.remove(h)
